@@ -40,7 +40,7 @@ def run(c):
         c.sample({"request": k, "impl": v[:400]})
     c.cov["search"] = "Lean monitors checkLowerFlat/checkLowerMem/checkLiftMem/checkCall on the real trees, seeded+boundary values, ptr 4 and 8"
     c.cov["partial_obligations"] = [
-        "store_correct / load_correct (memory encodings): not yet theorems; covered by correspondence + checkLowerMem/checkLiftMem monitors",
+        "load_correct (lifting from memory): not yet a theorem; covered by correspondence + checkLiftMem monitor",
         "strings/lists/maps (types needing linear memory): theorems open; covered by correspondence + monitors"]
     c.assumptions += ["layout (alignment/elem_size/offsets) is the spec's, evaluated at both widths and compared with wit-parser's symbolic SizeAlign on every generated type (wit-parser itself is external)",
                       "the SSA -> tree canonicalisation in harness/abi-trace (inlining of pure single-assignment instructions)",
